@@ -308,3 +308,23 @@ CHECKS["C09"] = {
         dict(c09run("cosim.fmp4.abstime", 0, 5, 5, ABSTIME=1, CONCRETE=2, SYMSEGMIN=0, SEGMIN_MS=30, VKINDS=2), thorough_only=True, qtimeout=120000),
     ],
 }
+
+C08F = [G + "c08_race.go", G + "c06_reload.go", "rt/fs_model.go"] + MUX
+
+
+def c08run(name, variant, disk, kq, kt):
+    return {"name": name, "files": C08F, "fn": "VerifH_C08_race", "workers": 16, "race": True, "params": {"VARIANT": variant, "DISK": disk},
+            "params_quick": {"K": kq}, "params_thorough": {"K": kt}, "reach": ["end"], "budget_quick": 900, "budget_thorough": 7200, "replay_timeout": 400}
+
+
+CHECKS["C08"] = {
+    "technique": "lock-set race candidates computed on the symbolic paths of the real code (every heap access of the writer and of one reader thread per URL kind, with the mutexes held), "
+                 "each candidate confirmed with the Go race detector on a native writer-vs-readers run before it is reported; panics in any thread are findings too",
+    "bounds": {"quick": {"writes": "K=3 (Low-Latency + Directory), K=4 (fMP4 RAM), K=3 (MPEG-TS + Directory), incl. SPS/PPS changes", "readers": "one thread per URL kind (multivariant, media playlist, init, every listed segment and part, preload hint, unknown) started after a symbolic number of writes",
+                         "native confirmation": "400 writes against 4 reader goroutines under -race"},
+               "thorough": {"writes": "K=4 / 5 / 4"}},
+    "assumptions": MUX_STUBS + ["lock-set discipline + happens-before from thread creation only (other happens-before edges are not modelled: such candidates are filtered by the native race detector, never reported unconfirmed)",
+                                "atomic-snapshot and monotonicity sub-claims: playlists are generated with the muxer mutex held (C03-C06 constrain each snapshot)"],
+    "outside": ["races between two readers on objects the bounded runs never create", "races the native stress run does not reproduce (listed as unconfirmed candidates in evidence)", "compiler / hardware reordering beyond the Go memory model"],
+    "runs": [c08run("conc.race.ll.disk", 3, 1, 3, 4), c08run("conc.race.fmp4.ram", 2, 0, 4, 5), c08run("conc.race.ts.disk", 1, 1, 3, 4)],
+}
